@@ -118,7 +118,8 @@ def _only_added_empty_lists(a, b) -> bool:
     return a == b
 
 
-def structured(rep, d) -> None:
+def structured_families() -> tuple[dict, dict]:
+    """(components, families): families maps a schema name to (schema, explicit instances)."""
     comps = dict(codec.COMPONENTS)
     fam = {
         "AAny": ({"type": "object", "properties": {"k": S}}, [{"k": "x", "extra": 1, "e2": {"a": [1, None]}}, {}, {"k": "x"}, {"extra": None}]),
@@ -136,6 +137,8 @@ def structured(rep, d) -> None:
                  [{"value": 1}, {"value": 1, "children": []}, {"value": 1, "children": [{"value": 2, "children": [{"value": 3}]}, {"value": 4}]}]),
         "Ping": ({"type": "object", "properties": {"pong": ref("Pong")}}, [{}, {"pong": {}}, {"pong": {"ping": {"pong": {}}}}]),
         "Pong": ({"type": "object", "properties": {"ping": ref("Ping")}}, [{"ping": {}}]),
+        "SharedTree": ({"allOf": [ref("Tree"), {"type": "object", "properties": {"owner": S}}]},
+                       [{"value": 1, "owner": "o"}, {"value": 1, "children": [{"value": 2, "children": [{"value": 3}]}], "owner": "o"}]),
         "Base": ({"type": "object", "required": ["id"], "properties": {"id": I, "email": S, "tags": {"type": "array", "items": S}}},
                  [{"id": 1}, {"id": 1, "email": "e"}, {"id": 2, "tags": ["a"]}, {"id": 3, "tags": []}]),
         "Child": ({"allOf": [ref("Base"), {"type": "object", "required": ["email"], "properties": {"extra": {"type": "string", "format": "date"}}}]},
@@ -155,6 +158,11 @@ def structured(rep, d) -> None:
     # every presence pattern of three optional properties of different kinds
     fam["Presence"] = ({"type": "object", "properties": {"a": {"type": "string", "format": "date"}, "b": ref("M"), "c": {"type": ["integer", "null"]}}},
                        [{k: v for k, v in zip("abc", vals) if v != "ABSENT"} for vals in itertools.product(["2020-01-02", "ABSENT"], [{"v": 1}, "ABSENT"], [5, None, "ABSENT"])])
+    return comps, fam
+
+
+def structured(rep, d) -> None:
+    comps, fam = structured_families()
     schemas = {**comps, **{k: v[0] for k, v in fam.items()}}
     validity = codec.screen_validity([(ref(k), v[1]) for k, v in fam.items()], components=schemas)
     doc = gen.mkdoc(schemas=schemas)
